@@ -216,9 +216,15 @@ def evaluate_z3_re_range(
     if expr.decl().name() != "re.range":
         return Nothing
 
-    return Some(
-        construct_result(lambda args: f"[{args[0]}-{args[1]}]", children_results)
-    )
+    def constructor(args):
+        lower, upper = args
+        if len(lower) != 1 or len(upper) != 1 or lower > upper:
+            # SMT-LIB: the empty language.
+            return "(?!)"
+
+        return f"[{re.escape(lower)}-{re.escape(upper)}]"
+
+    return Some(construct_result(constructor, children_results))
 
 
 def evaluate_z3_re_loop(
@@ -227,9 +233,14 @@ def evaluate_z3_re_loop(
     if expr.decl().kind() != z3.Z3_OP_RE_LOOP:
         return Nothing
 
+    # `(_ re.loop n)` has no upper bound. The body must be grouped, since it may
+    # consist of more than one character.
+    params = expr.params()
+    bounds = f"{params[0]},{params[1]}" if len(params) > 1 else f"{params[0]},"
+
     return Some(
         construct_result(
-            lambda args: f"{args[0]}{{{expr.params()[0]},{expr.params()[1]}}}",
+            lambda args: f"(?:{args[0]}){{{bounds}}}",
             children_results,
         )
     )
@@ -270,7 +281,8 @@ def evaluate_z3_seq_in_re(
 
     return Some(
         construct_result(
-            lambda args: re.match(f"^{args[1]}$", args[0]) is not None,
+            # The whole string must match, and "any character" includes line breaks.
+            lambda args: re.fullmatch(args[1], args[0], re.DOTALL) is not None,
             children_results,
         )
     )
